@@ -18,5 +18,6 @@ CONSTANTS
   AtomicExec = FALSE
   MaxDrop = 0
   DropKinds = {}
+  Offline = {}
 INVARIANT AtEnd
 CHECK_DEADLOCK FALSE
